@@ -36,7 +36,7 @@ impl<'a> Style<'a> {
     pub fn random(t: &'a mut Tape) -> Style<'a> {
         Style { tape: Some(t), full_parens: false }
     }
-    fn chance(&mut self, num: u32, den: u32) -> bool {
+    pub fn chance(&mut self, num: u32, den: u32) -> bool {
         match &mut self.tape {
             Some(t) => t.bool_p(num, den),
             None => false,
@@ -249,10 +249,12 @@ fn pr0(e: &E, st: &mut Style<'_>) -> (String, u8) {
         E::Call(f, xs) => {
             if is_method(f) && !xs.is_empty() {
                 let args: Vec<String> = xs[1..].iter().map(|x| pr(x, L_IF, st)).collect();
-                (format!("{}.{f}({})", pr(&xs[0], L_MEMBER, st), args.join(", ")), L_MEMBER)
+                let trail = if !args.is_empty() && st.chance(1, 8) { "," } else { "" };
+                (format!("{}.{f}({}{trail})", pr(&xs[0], L_MEMBER, st), args.join(", ")), L_MEMBER)
             } else {
                 let args: Vec<String> = xs.iter().map(|x| pr(x, L_IF, st)).collect();
-                (format!("{f}({})", args.join(", ")), L_PRIMARY)
+                let trail = if !args.is_empty() && st.chance(1, 8) { "," } else { "" };
+                (format!("{f}({}{trail})", args.join(", ")), L_PRIMARY)
             }
         }
     }
